@@ -183,7 +183,23 @@ def event_conditions(cn, region, events_of=default_events, unroll=0, drop=lambda
                 evs = events_of(cn, e[1])
             elif e[0] == "return":
                 v = e[1].get("value")
-                evs = (events_of(cn, v) if v is not None else []) + [Event("return", cn.c(v) if v is not None else "", e[1])]
+                sv = strip(v, casts=True) if v is not None else None
+                if cond_events and sv is not None and sv.get("k") == "ConditionalOperator":
+                    # `return c ? a : b` is `if (c) return a; return b;`
+                    for extra, arm in _ternary_arms(cn, sv):
+                        if versioned and ver:
+                            extra = [[(vtext(t, ver), p) for t, p in x] for x in extra]
+                        key = ("return", vtext(cn.c(arm), ver) if (versioned and ver) else cn.c(arm))
+                        nodes.setdefault(key, e[1])
+                        for a in alts:
+                            for x in extra:
+                                conj = frozenset((t, p) for t, p in a + x if not drop(t))
+                                if _consistent(conj):
+                                    table.setdefault(key, set()).add(conj)
+                    evs = events_of(cn, v)
+                else:
+                    evs = (events_of(cn, v) if v is not None else []) + \
+                        [Event("return", cn.c(v) if v is not None else "", e[1])]
             elif e[0] in ("break", "continue"):
                 evs = [Event(e[0], "", e[1])]
             elif e[0] == "throw":
@@ -226,6 +242,21 @@ def event_conditions(cn, region, events_of=default_events, unroll=0, drop=lambda
                             if _consistent(conj):
                                 table.setdefault((k2, t2), set()).add(conj)
     return table, nodes
+
+
+def _ternary_arms(cn, s):
+    """[(alternatives of signed atoms, arm node)] for a (nested) conditional expression."""
+    c, a, b = s["c"]
+    out = []
+    for outcome, arm in ((True, a), (False, b)):
+        alts = signed_atoms(cn, c, outcome)
+        sa = strip(arm, casts=True)
+        if sa is not None and sa.get("k") == "ConditionalOperator":
+            for sub, leaf in _ternary_arms(cn, sa):
+                out.append(([x + y for x in alts for y in sub], leaf))
+        else:
+            out.append((alts, arm))
+    return out
 
 
 def _consistent(conj):
@@ -304,6 +335,13 @@ def compare(chk, rule, fn, at, actual, nodes, expected, shorten=lambda s: s, exi
         head = key[1].split("(")[0]
         near = [k for k in actual if k not in expected and k[0] == key[0] and
                 ((key[1] and (k[1].split("(")[0] == head)) or (want_atoms & set(atoms_of(actual[k]))))]
+        if not near:
+            # the only event of this kind that is missing against the only unexpected event of this kind: the
+            # function does something else in its place
+            miss_k = [k for k in expected if k not in actual and k[0] == key[0]]
+            extra_k = [k for k in actual if k not in expected and k[0] == key[0]]
+            if len(miss_k) == 1 and len(extra_k) == 1:
+                near = extra_k
         if near:
             n_bad += 1
             chk.violation(rule, site, "%s:%s:%s" % (rule, fn.o["n"], "-".join(why.split(" ")[:4])),
